@@ -2,6 +2,7 @@
 import RactorModel.Extracted
 import RactorModel.Props.C18
 import RactorModel.Props.C10
+import RactorModel.Props.C11
 import RactorModel.Props.C09
 import RactorModel.Props.C08
 import RactorModel.Props.C16
